@@ -33,6 +33,12 @@ theorem fn_multiplication_error_agree (a b : Value) :
 theorem fn_division_error_agree (a b : Value) : Gen.EvalexprError.division_error a b = .divisionError a b := rfl
 theorem fn_modulation_error_agree (a b : Value) : Gen.EvalexprError.modulation_error a b = .modulationError a b := rfl
 
+theorem fn_type_error_agree (v : Value) (ts : List ValueType) : Gen.EvalexprError.type_error v ts = .typeError ts v := rfl
+theorem fn_wrong_function_argument_amount_range_agree (actual lo hi : Nat) :
+    Gen.EvalexprError.wrong_function_argument_amount_range actual ⟨lo, hi⟩ = .wrongFunctionArgumentAmount lo hi actual := rfl
+theorem fn_expected_ranged_len_tuple_agree (lo hi : Nat) (v : Value) :
+    Gen.EvalexprError.expected_ranged_len_tuple ⟨lo, hi⟩ v = .expectedRangedLengthTuple lo hi v := rfl
+
 /-- `EvalexprError::expected_type` -/
 theorem fn_expected_type_agree (expected actual : Value) :
     Gen.EvalexprError.expected_type expected actual = Err.expectedType expected actual := by cases expected <;> rfl
